@@ -370,6 +370,11 @@ class _TranslationState:
 
     def _set_indexed_voltage(self, channel: int, base: float, factors: Sequence[float]):
         dep_key = DepKey.from_voltages(voltages=factors, resolution=self.resolution)
+        if not dep_key.factors:
+            # all factors are zero: the voltage does not depend on any index. DepKey(()) is the register of plain
+            # voltages, whose bookkeeping (plain_voltage) lives in set_voltage
+            self.set_voltage(channel, base)
+            return
         new_dep_state = DepState(
             base,
             iterations=tuple(self.iterations)
